@@ -15,7 +15,7 @@ from odxgen import values as V
 ID = "C05"
 LEAN_TARGETS = ["OdxVerif.Props.C05"]
 DRIVERS = ["drv_codec"]
-THEOREMS = ["OdxVerif.Codec." + t for t in ["C05_error_classes", "C05_never_foreign", "C05_no_invention", "C05_truncated_rejected", "C05_truncated_rejected_struct", "C05_no_invention_struct"]]
+THEOREMS = ["OdxVerif.Codec." + t for t in ["C05_error_classes", "C05_never_foreign", "C05_no_invention", "C05_truncated_rejected", "C05_truncated_rejected_struct", "C05_unfit_rejected_struct", "C05_no_invention_struct"]]
 RULE = ("direct oracle (model-free fuzz): for every generated description (odxgen, through the XML loader) and for every layer of the shipped "
         "examples/somersault.pdx (DiagLayer.decode, decode_response, every Request/Response.decode, DiagService.decode_message): byte strings = "
         "own encodings, every proper prefix of them, single-byte mutations, deletions, extensions, all strings of length <= 2 (quick) / 3 "
